@@ -66,6 +66,7 @@ pub struct World<S: MdkStorageProvider> {
     pub joined: Vec<bool>,                          // clients that are (or were) members; spare clients join later through a welcome
     pub welcomes: BTreeMap<u64, Vec<UnsignedEvent>>, // add-commit event -> welcome rumors it produced
     pub ret_of: BTreeMap<usize, usize>,              // retention a client was last (re)started with, when it differs from the world's
+    pub rm_prop_ev: BTreeMap<usize, u64>,            // victim -> the Remove proposal naming it that some member built with the MLS library
 }
 
 pub fn id_order_key(id: &EventId) -> u64 {
@@ -110,7 +111,7 @@ impl<S: MdkStorageProvider> World<S> {
         let mut admins = vec![clients[0].keys.public_key()];
         for i in 1..n { if admin_mask & (1 << i) != 0 { admins.push(clients[i].keys.public_key()); } }
         let kps: Vec<Event> = (1..n).map(|i| kp(&clients[i].mdk, &clients[i].keys)).collect();
-        let cfg = NostrGroupConfigData::new("g0".into(), "d".into(), None, None, None, vec![RelayUrl::parse("wss://test.relay").unwrap()], admins);
+        let cfg = NostrGroupConfigData::new("g0".into(), "d".into(), None, None, None, vec![RelayUrl::parse("wss://test.relay").unwrap(), RelayUrl::parse("wss://r2.relay").unwrap()], admins);
         let r = clients[0].mdk.create_group(&clients[0].keys.public_key(), kps, cfg).unwrap();
         let gid = r.group.mls_group_id.clone();
         for i in 1..n {
@@ -118,7 +119,7 @@ impl<S: MdkStorageProvider> World<S> {
             clients[i].mdk.accept_welcome(&w).unwrap();
         }
         let now = nostr::Timestamp::now().as_secs();
-        let mut w = World { clients, gid, events: BTreeMap::new(), sigma: BTreeMap::new(), msg_ids: BTreeMap::new(), admin_mask: admin_mask | 1, base_ts: now - 5000, leave_ev: BTreeMap::new(), retention, reopen: None, joined: (0..n + spare).map(|i| i < n).collect(), welcomes: BTreeMap::new(), ret_of: BTreeMap::new() };
+        let mut w = World { clients, gid, events: BTreeMap::new(), sigma: BTreeMap::new(), msg_ids: BTreeMap::new(), admin_mask: admin_mask | 1, base_ts: now - 5000, leave_ev: BTreeMap::new(), retention, reopen: None, joined: (0..n + spare).map(|i| i < n).collect(), welcomes: BTreeMap::new(), ret_of: BTreeMap::new(), rm_prop_ev: BTreeMap::new() };
         let a = w.auth(0);
         w.sigma.insert(a, 0);
         w
@@ -221,7 +222,7 @@ impl<S: MdkStorageProvider> World<S> {
                 // ground truth of a removal: every client (device) of the removed identity
                 let mut swept = swept;
                 if let Some(pk) = vpk { for (i, c) in self.clients.iter().enumerate() { if c.keys.public_key() == pk && !swept.contains(&i) { swept.push(i); } } }
-                let leave_refs: Vec<u64> = swept.iter().filter(|x| vpk.map(|pk| self.clients[**x].keys.public_key() != pk).unwrap_or(true)).filter_map(|x| self.leave_ev.get(x)).cloned().collect();
+                let leave_refs: Vec<u64> = swept.iter().filter(|x| vpk.map(|pk| self.clients[**x].keys.public_key() != pk).unwrap_or(true)).filter_map(|x| self.leave_ev.get(x).or(self.rm_prop_ev.get(x))).cloned().collect();
                 // ad<j> / un<j>: an admin grants / revokes admin rights of member j (update_group_data with a new admin list)
                 let admin_change: Option<(bool, usize)> = kind.strip_prefix("ad").filter(|v| v.chars().all(|c| c.is_ascii_digit()) && !v.is_empty()).and_then(|v| v.parse().ok()).map(|j| (true, j))
                     .or_else(|| kind.strip_prefix("un").and_then(|v| v.parse().ok()).map(|j| (false, j)));
@@ -239,7 +240,9 @@ impl<S: MdkStorageProvider> World<S> {
                     _ if new_admins.is_some() => self.clients[m].mdk.update_group_data(&gid, NostrGroupDataUpdate::new().admins(new_admins.clone().unwrap())),
                     k if k.starts_with("rv") => self.clients[m].mdk.remove_members(&gid, &[vpk.unwrap()]),
                     "su" => self.clients[m].mdk.self_update(&gid),
-                    _ => self.clients[m].mdk.update_group_data(&gid, NostrGroupDataUpdate::new().name(format!("g{}", ev + 1))),
+                    // a rename also rewrites the relay list (1-3 relays by event number: the list grows AND shrinks along a history)
+                    _ => self.clients[m].mdk.update_group_data(&gid, NostrGroupDataUpdate::new().name(format!("g{}", ev + 1))
+                        .relays(["wss://test.relay", "wss://r2.relay", "wss://r3.relay"][..1 + ((ev + 1) % 3) as usize].iter().map(|u| RelayUrl::parse(u).unwrap()).collect())),
                 }));
                 let is_admin = self.is_admin_now(m);
                 match r {
@@ -280,6 +283,15 @@ impl<S: MdkStorageProvider> World<S> {
                         let vleaf = mls.members().find(|mm| BasicCredential::try_from(mm.credential.clone()).map(|c| c.identity() == vpk.to_bytes()).unwrap_or(false))?.index;
                         let (commit, _w, _gi) = mls.remove_members(&mdk.provider, &signer, &[vleaf]).ok()?;
                         commit.tls_serialize_detached().ok()?
+                    } else if akind == "pr" {
+                        // a standalone Remove PROPOSAL naming another member (MDK's API only ever proposes the caller's own leave);
+                        // the builder does not keep it in its own proposal store
+                        let vpk = self.clients[victim].keys.public_key();
+                        if vpk == self.clients[m].keys.public_key() { return None; }
+                        let vleaf = mls.members().find(|mm| BasicCredential::try_from(mm.credential.clone()).map(|c| c.identity() == vpk.to_bytes()).unwrap_or(false))?.index;
+                        let (msg, pref) = mls.propose_remove_member(&mdk.provider, &signer, vleaf).ok()?;
+                        mls.remove_pending_proposal(mdk.provider.storage(), &pref).ok()?;
+                        msg.tls_serialize_detached().ok()?
                     } else if akind == "ic" {
                         if self.clients[victim].keys.public_key() == self.clients[m].keys.public_key() { return None; }
                         // a path-only commit whose leaf keeps the author's MLS signature key but names ANOTHER Nostr identity
@@ -307,13 +319,19 @@ impl<S: MdkStorageProvider> World<S> {
                     Some(bytes)
                 }));
                 match built {
+                    Ok(Some(bytes)) if akind == "pr" => {
+                        let e = self.wrap_raw(m, bytes, ts);
+                        self.rm_prop_ev.insert(victim, ev);
+                        self.events.insert(ev, EvInfo { event: e, kind: "prop".into(), author: m, state: st.parse().unwrap_or(9999), epoch: ep, ts, msg: None, ckind: "adv-pr".into(), refs: vec![], auth: false, removes: vec![victim] });
+                        (format!("{} | author={m} state={st} epoch={ep} removes={victim}", t.join(" ")), "ok".into())
+                    }
                     Ok(Some(bytes)) => {
                         let e = self.wrap_raw(m, bytes, ts);
                         let key = id_order_key(&e.id);
                         let mut removes: Vec<usize> = if akind == "rm" { vec![victim] } else { vec![] };
                         for x in &swept { if !removes.contains(x) { removes.push(*x); } }
                         // an inline Remove of a leaf that a pending proposal also removes: OpenMLS keeps the inline one only
-                        let refs: Vec<u64> = swept.iter().filter(|x| !(akind == "rm" && **x == victim)).filter_map(|x| self.leave_ev.get(x)).cloned().collect();
+                        let refs: Vec<u64> = swept.iter().filter(|x| !(akind == "rm" && **x == victim)).filter_map(|x| self.leave_ev.get(x).or(self.rm_prop_ev.get(x))).cloned().collect();
                         self.events.insert(ev, EvInfo { event: e, kind: "commit".into(), author: m, state: st.parse().unwrap_or(9999), epoch: ep, ts, msg: None, ckind: format!("adv-{akind}"), refs: refs.clone(), auth: is_admin, removes: removes.clone() });
                         let j = |v: Vec<String>| if v.is_empty() { "-".to_string() } else { v.join(",") };
                         // an identity change is a pure self-update as far as authorisation goes; it is refused by validate_commit_identities
